@@ -9,7 +9,7 @@
    The message formats of C30/C29 are terms of [fmt] or hand-written loops over
    the primitives (extension blocks). *)
 From Coq Require Import List NArith ZArith Bool Arith Lia.
-From Coq Require String Ascii Uint63.
+From Coq Require String Ascii.
 From Verif Require Import Harness.
 Import ListNotations.
 Open Scope N_scope.
@@ -25,21 +25,6 @@ Fixpoint hx (s : String.string) : bytes :=
   match s with
   | String.String a (String.String b r) => (16 * hexval a + hexval b) :: hx r
   | _ => []
-  end.
-
-(* bytes packed 7 per primitive integer (big-endian; the last integer holds the remaining
-   len mod 7 bytes): by far the cheapest literal for coqc to parse *)
-Fixpoint be_bytes (n : nat) (x : N) : bytes :=
-  match n with
-  | O => []
-  | S k => (x / 256 ^ N.of_nat k) mod 256 :: be_bytes k x
-  end.
-
-Fixpoint pk (len : N) (l : list Uint63.int) : bytes :=
-  match l with
-  | [] => []
-  | x :: r => let k := N.min 7 len in
-              be_bytes (N.to_nat k) (Z.to_N (Uint63.to_Z x)) ++ pk (len - k) r
   end.
 
 (* n copies of byte b *)
